@@ -133,6 +133,27 @@ Theorem C19_run_never_raises nm next tf fuel h es stop hr :
 Proof. exact (run_never_raises nm next tf fuel h es stop hr). Qed.
 Print Assumptions C19_run_never_raises.
 
+(* ---- any phase or element selection, in whichever model polls the condition ---------------------- *)
+(* The watched column is the FIRST position of the selected name in the polling model's own list of
+   phases (elements for a composition condition); nothing is remembered from another model or an earlier
+   poll (test_cond / run take the names of the current model as an argument and the condition carries only
+   the name).  No selection = column 0. *)
+Theorem C19_selection_by_name nm (c : condR) :
+  match c_sel Rops c with
+  | None => sel_index Rops nm c = Some 0%nat
+  | Some s => forall p, sel_index Rops nm c = Some p ->
+                nth_error (name_list nm c) p = Some s /\
+                forall j, (j < p)%nat -> nth_error (name_list nm c) j <> Some s
+  end.
+Proof. exact (selection_by_name nm c). Qed.
+Print Assumptions C19_selection_by_name.
+
+Theorem C19_poll_column nm (c : condR) H n p r :
+  sel_index Rops nm c = Some p -> nth_error H n = Some r ->
+  poll Rops nm c H n = nth_error (column Rops (c_q Rops c) r) p.
+Proof. exact (poll_column nm c H n p r). Qed.
+Print Assumptions C19_poll_column.
+
 (* ---- registering conditions: the mode argument and its default --------------------------------- *)
 (* addStoppingCondition(condition, mode = 'or'): omitting the mode registers the condition exactly as
    mode 'or' does (or-combined); any other string registers it as and-combined *)
